@@ -67,6 +67,16 @@ class JournalGraph(nx.Graph):
         return H
 
 
+_ALARM = {"armed": False}
+
+
+def _alarm_handler(signum, frame):
+    # the timer repeats every second once it has expired: should one Budget be absorbed somewhere on its way up (it
+    # has been observed), the next one ends the run
+    if _ALARM["armed"]:
+        raise rng.Budget()
+
+
 def pristine_shaped(journal):
     """True if the journal consists of swap batches as the pinned implementation writes them: single-edge adds
     followed by as many single-edge removes, nothing else."""
@@ -266,12 +276,14 @@ def run_rewire(case):
     # out): a wall-clock limit per run (6 s; an ordinary run takes milliseconds), reported as inconclusive exactly like an exhausted budget -- never a violation
     import os
     import signal
-
-    def _expired(signum, frame):
-        raise rng.Budget()
-    old_handler = signal.signal(signal.SIGALRM, _expired)
-    signal.setitimer(signal.ITIMER_REAL, float(os.environ.get("VERIF_CASE_S", "6")))
+    # the handler stays installed for the life of the worker process (restoring the default disposition would let a
+    # late SIGALRM terminate the worker) and does nothing unless a run is armed
+    if signal.getsignal(signal.SIGALRM) is not _alarm_handler:
+        signal.signal(signal.SIGALRM, _alarm_handler)
+    _ALARM["armed"] = True
+    signal.setitimer(signal.ITIMER_REAL, float(os.environ.get("VERIF_CASE_S", "6")), 1.0)
     try:
+      try:
         with ctx:
             try:
                 R.where = "construct"
@@ -301,9 +313,15 @@ def run_rewire(case):
                 R.budget = True
             except Exception as e:  # noqa
                 R.error = e
-    finally:
+      finally:
+        _ALARM["armed"] = False
         signal.setitimer(signal.ITIMER_REAL, 0)
-        signal.signal(signal.SIGALRM, old_handler)
+    except rng.Budget:
+        # the alarm went off while the run was being wound up
+        _ALARM["armed"] = False
+        signal.setitimer(signal.ITIMER_REAL, 0)
+        R.budget = True
+    finally:
         JournalGraph.__init__ = orig_init
     if R.out is not None and isinstance(R.out, JournalGraph) and R.out is not G:
         R.journal = list(R.out.journal)
